@@ -192,6 +192,19 @@ def gmsh_mesh(elemType, size=None, layers=2):
     raise ValueError(elemType)
 
 
+def row_mesh(elemType, n=2):
+    """A single row of n regular elements made by the real Mesher (one element wide in the other direction(s)): hourglass modes of an
+    under-integrated element are not restrained by neighbours there."""
+    from EasyFEA import ElemType
+    from EasyFEA.Geoms import Domain, Point
+
+    et = ElemType[elemType]
+    dom = Domain(Point(0, 0), Point(float(n), 1.0), 1.0)
+    if et in ElemType.Get_2D():
+        return dom.Mesh_2D([], et, isOrganised=True)
+    return dom.Mesh_Extrude([], [0, 0, 1], [1], et, isOrganised=True)
+
+
 def transform_mesh(mesh, A=None, b=None, perm=None):
     """Affine image x -> A x + b and/or node renumbering new_id = perm[old_id] of a real mesh (all groups rebuilt)."""
     coords = np.asarray(mesh.coord, dtype=float)
